@@ -360,6 +360,17 @@ func (f *Fedi) Install(l *CLayout) {
 		if l.Nulls && len(p.Items) == 0 {
 			d[itemsKey] = nil
 		}
+		if len(p.Items) == 0 && f.t.Chance(1, 4) {
+			// members under the key of the other kind (items on an ordered page, orderedItems on an
+			// unordered one): not this page's members
+			otherKey := "items"
+			if !l.Ordered {
+				otherKey = "orderedItems"
+			}
+			delete(d, itemsKey)
+			d[otherKey] = []any{f.noteItem(l.Host, simEpoch.Add(-time.Hour), false).Value, f.noteItem(l.Host, simEpoch.Add(-2*time.Hour), false).Value}
+			f.r.S.Probe("page_with_members_under_the_other_kinds_key")
+		}
 		// real servers put first/prev/last on pages too; paging must follow next only
 		if l.PageLinks {
 			d["first"] = l.Pages[0].URL
